@@ -10,7 +10,7 @@ use serde_json::json;
 
 const BASES: [&str; 5] = ["u32", "String", "Vec<u32>", "User", "T"];
 const WRAPPERS: [&str; 6] = ["T", "Option<T>", "Option<Option<T>>", "Box<Option<T>>", "Option<Box<T>>", "Arc<Option<Option<T>>>"];
-const DEFAULTS: [&str; 5] = ["none", "bare", "merged-last", "merged-first", "path"];
+const DEFAULTS: [&str; 7] = ["none", "bare", "merged-last", "merged-first", "path", "separate-after-other-serde-attribute", "separate-before-other-serde-attribute"];
 const POSITIONS: [&str; 4] = ["struct-field", "variant-field", "variant-payload", "alias"];
 
 fn base_ty(b: &str) -> Ty {
@@ -77,6 +77,18 @@ pub fn program(c: &Case) -> File {
             f.style = AttrStyle::MergedReversed;
         }
         "path" => f.default = DefaultKind::Path,
+        "separate-after-other-serde-attribute" => {
+            // #[serde(rename = "subject")] #[serde(default)]
+            f.default = DefaultKind::Bare;
+            f.rename = Some("subject".into());
+            f.style = AttrStyle::Separate;
+        }
+        "separate-before-other-serde-attribute" => {
+            // #[serde(default,)] #[serde(rename = "subject",)]
+            f.default = DefaultKind::Bare;
+            f.rename = Some("subject".into());
+            f.style = AttrStyle::SeparateReversed;
+        }
         _ => {}
     }
     let ctl = Field::new("ctl", bt.clone());
@@ -112,7 +124,7 @@ pub fn check_case(c: &Case, choices: &[u32], acc: &mut Acc) {
     let file = program(c);
     let cfg = if c.prefixed { Cfg::prefixed() } else { Cfg::plain() };
     let ty = wrap(c.wrapper, base_ty(c.base));
-    let bare_default = matches!(c.default, "bare" | "merged-last" | "merged-first");
+    let bare_default = matches!(c.default, "bare" | "merged-last" | "merged-first" | "separate-after-other-serde-attribute" | "separate-before-other-serde-attribute");
     let expect_optional = refmodel::optional(&ty, if bare_default { DefaultKind::Bare } else { DefaultKind::None });
     let levels = opt_levels(&ty);
     // number of optional wrappers the type text must carry in opt-carrying backends
